@@ -1,0 +1,38 @@
+//go:build verif
+
+// Package verifhook holds the crash-point hooks of the plugin installation code. Only with the `verif` build tag
+// do they do anything: a test harness sets OnCrashPoint / OnTear to stop the calling code just before a chosen
+// filesystem step (by panicking or exiting) or to let only a prefix of a write through.
+package verifhook
+
+import "io"
+
+// OnCrashPoint, when non-nil, is called just before the filesystem step called name (and once after the last one).
+var OnCrashPoint func(name string)
+
+// OnTear, when non-nil, is asked how many bytes of the write called name may reach the file (negative: all).
+var OnTear func(name string) int
+
+func CrashPoint(name string) {
+	if f := OnCrashPoint; f != nil {
+		f(name)
+	}
+}
+
+func Tear(name string, data []byte) []byte {
+	if f := OnTear; f != nil {
+		if n := f(name); n >= 0 && n < len(data) {
+			return data[:n]
+		}
+	}
+	return data
+}
+
+func TearReader(name string, r io.Reader) io.Reader {
+	if f := OnTear; f != nil {
+		if n := f(name); n >= 0 {
+			return io.LimitReader(r, int64(n))
+		}
+	}
+	return r
+}
